@@ -120,7 +120,11 @@ func bucketClockScenario(c *sup.Ctx, r *rng.R) {
 					_ = col.SetWithMeta(ctx, fmt.Sprintf("foreign%d", wi), 0, uint64(1_600_000_000_000_000_000)+wr.U64()%100000, 0, nil, []byte(`{"f":2}`), sgbucket.FeedDataTypeJSON)
 				}
 				call := conc.Tick.Add(1)
-				switch wr.Intn(8) {
+				switch wr.Intn(10) {
+				case 8:
+					err = col.Delete(key) // hands out a CAS (seen on the feed and in the stored tombstone) but does not return it
+				case 9:
+					_, err = col.Add(key, 0, body) // likewise; over a tombstone it re-creates the document
 				case 0:
 					cas, err = col.WriteCas(key, 0, last[lk], body, 0)
 				case 1:
@@ -221,6 +225,21 @@ func bucketClockScenario(c *sup.Ctx, r *rng.R) {
 		}
 	}
 	evmu.Unlock()
+	// what is stored is the version the last applied write left: its CAS is the one that write's event carried
+	for lk, e := range lastEv {
+		var bi, ci int
+		var key string
+		if _, err := fmt.Sscanf(strings.ReplaceAll(lk, "/", " "), "%d %d %s", &bi, &ci, &key); err != nil || bi >= len(buckets) || ci >= len(buckets[bi].Colls) {
+			continue
+		}
+		o := kv.ReadBack(buckets[bi].Colls[ci], key)
+		c.Count("stored_cas_checked", 1)
+		if sc := o.RowCas(); sc != 0 && sc != e.cas {
+			c.Viol([]string{"C04"}, "bucket|stored-cas-not-last-write|"+script.Class,
+				fmt.Sprintf("key %s: the last write applied to it was stamped with CAS %d (its event, revision %d), but the document is stored with CAS %d", lk, e.cas, e.rev, sc), nil)
+			break
+		}
+	}
 	for lk, sts := range perKey {
 		var bi, ci int
 		var key string
